@@ -462,7 +462,7 @@ theorem sumNat_eq (l : List Nat) : sumNat l = l.sum := by
 
 theorem count_eq_nested (s : Spec) (prim : List HOp) :
     count s prim = (nested s.m prim s.types).countP (sat s) := by
-  simp only [count, forceOps_eq, forceZ3ss_eq, nested, List.countP_flatMap, List.countP_map, sumNat_eq]
+  simp only [count, forceOps_eq, forceZ3ss_eq, nested, List.countP_flatMap, sumNat_eq]
   congr 1
   refine List.map_congr_left fun os hos => ?_
   obtain ⟨hlen, _⟩ := length_of_mem_tuples_reps hos
@@ -494,5 +494,56 @@ theorem invVecT_eq_of_affConj (specs : List Spec) (hv : ∀ s ∈ specs, (vecsMo
     invVecT specs src = invVecT specs tgt := by
   unfold invVecT
   exact List.map_congr_left fun s hsm => count_eq_of_affConj s (hv s hsm) hs ht h
+
+/-! ### subsets of the point group cut out by a system -/
+
+theorem satRots_into (F : Frame) {src tgt : List HOp} (h1 : ∀ o ∈ src, ∃ o0 ∈ tgt, CC F 1 o o0) (s : Spec) :
+    ∀ a ∈ satRots s src, (F.Q.mul a).mul F.P ∈ satRots s tgt := by
+  intro a ha
+  unfold satRots at ha ⊢
+  split at ha
+  · rename_i τ hτ
+    simp only [List.mem_map, List.mem_filter, List.any_eq_true] at ha ⊢
+    obtain ⟨o, ⟨ho, n, hn, hsat⟩, rfl⟩ := ha
+    have hx : lift n o ∈ slotElems s.m src τ :=
+      mem_slotElems.2 ⟨o, (mem_reps.1 ho).1, (mem_reps.1 ho).2, n, hn, rfl⟩
+    obtain ⟨y, hy, hcc⟩ := slot_total F h1 τ _ hx
+    obtain ⟨o0, ho0, hty0, n0, hn0, rfl⟩ := mem_slotElems.1 hy
+    refine ⟨o0, ⟨mem_reps.2 ⟨ho0, hty0⟩, n0, hn0, ?_⟩, ?_⟩
+    · exact sat_of_forall₂ F s (List.Forall₂.cons hcc List.Forall₂.nil) hsat
+    · show o0.rot = (F.Q.mul o.rot).mul F.P
+      have := hcc.1
+      change o.rot.mul F.P = F.P.mul o0.rot at this
+      rw [M3.mul_assoc, this, ← M3.mul_assoc, F.unimod.2, M3.one_mul]
+  · cases ha
+
+/-- Conjugate groups have conjugate subsets. -/
+theorem satRots_conjugate (s : Spec) {src tgt : List HOp} (h : AffConj src tgt) :
+    Conjugate (satRots s src) (satRots s tgt) := by
+  obtain ⟨_, c, hd, hpos, h12, h1, h2⟩ := h
+  let F := frameOf c hd hpos h12
+  refine ⟨F.P, F.Q, F.unimod, ?_, ?_⟩
+  · refine satRots_into F ?_ s
+    intro o ho
+    obtain ⟨o0, ho0, hm⟩ := h1 o ho
+    exact ⟨o0, ho0, cc_of_affMaps hd hpos h12 hm⟩
+  · have := satRots_into (F.inv hd) (src := tgt) (tgt := src) ?_ s
+    · exact this
+    · intro o0 ho0
+      obtain ⟨o, ho, hm⟩ := h2 o0 ho0
+      exact ⟨o, ho, CC.symm F hd (cc_of_affMaps hd hpos h12 hm)⟩
+
+theorem satRots_nodup (s : Spec) {prim : List HOp} (hnd : (prim.map (·.rot)).Nodup) : (satRots s prim).Nodup := by
+  unfold satRots
+  split
+  · refine List.Nodup.sublist (List.Sublist.map _ ?_) hnd
+    exact (List.filter_sublist).trans List.filter_sublist
+  · exact List.nodup_nil
+
+/-- The GL₃(ℤ)-invariants of the subset are invariants of the affine conjugacy class. -/
+theorem rotInv_eq_of_affConj (types : List (Int × Int × Nat)) (s : Spec) {src tgt : List HOp}
+    (hs : (src.map (·.rot)).Nodup) (ht : (tgt.map (·.rot)).Nodup) (h : AffConj src tgt) :
+    invVec types (satRots s src) = invVec types (satRots s tgt) :=
+  invVec_eq_of_conjugate types (satRots_nodup s hs) (satRots_nodup s ht) (satRots_conjugate s h)
 
 end Moyo.TypeInv
